@@ -646,13 +646,14 @@ class Impl:
         n0 = len(self.conn.sent)
         kind = op[0]
         if kind == 'export':
+            exc = False
             try:
                 self.handler.exportObject(self.objs[op[1]])
             except Exception:
-                pass
-            # third component: the object is NOT reachable afterwards (exportObject may raise for a partly
-            # assigned object; today it has registered the object by then)
-            return 'done', [], self.handler.exports.get(self.paths[op[1]]) is not self.objs[op[1]]
+                exc = True
+            # third component (for the oracle): the object is NOT reachable afterwards
+            gone = self.handler.exports.get(self.paths[op[1]]) is not self.objs[op[1]]
+            return ('raised' if exc else 'done'), [], gone
         if kind == 'assign':
             raised = False
             try:
@@ -1227,7 +1228,7 @@ def gen_ops(rng, classes, nobj, nops, wrong=0.2):
     exported = set()
     # initial assignments
     for o in range(nobj):
-        full = rng.random() < 0.7
+        full = rng.random() < 0.85      # (a partly assigned object usually cannot be exported at all)
         for a, i, p, q in info:
             if full or rng.random() < 0.5:
                 v = good_value(rng, q[1])
@@ -1244,6 +1245,9 @@ def gen_ops(rng, classes, nobj, nops, wrong=0.2):
         if o not in exported and rng.random() < 0.5:
             ops.append(['export', o])
             exported.add(o)
+            continue
+        if rng.random() < 0.04:
+            ops.append(['export', o])       # a second attempt (after a failed one), or a re-export
             continue
         bad = rng.random() < wrong
         if info:
